@@ -23,7 +23,7 @@ LEVEL = "model_checking"
 RULE = (
     "factored: ALL configurations = instance-metric subsets (15) x global-metric subsets (8) x 12 group sets (names incl. '-', 'a-b-c', 'x-y', space, tab, upper case, 'ü', a metric-like name; kinds plain/merge/single) x "
     "handler in {default, all-NaN, all-INF, all-NONE, asymmetric} x log_times {F,T} (14400; every third configuration additionally with the evaluator recording group times) x 3 subject sequences; and 24 configurations x ALL subject sequences of length <= 2 (thorough <= 3) over "
-    "{'s1','a b','x<TAB>y','-','','1e5','nan','ü','q\"r'} (+ 'subject_name' thorough). Inputs cycle over tp>0 (1/3-type floats), empty prediction, no instances, disjoint. "
+    "{'s1','a b','x<TAB>y','-','','1e5','nan','ü','q\"r'} (+ 'subject_name' thorough). Inputs cycle over tp>0 (1/3-type floats), empty prediction, a 10 001-voxel instance off by one voxel (values such as 9.999e-05 that are written in exponent notation), no instances, disjoint, prediction present for some groups only. "
     "non-trivial = >= 2 groups or a name containing '-', tab, quote or nothing; distinct by (configuration, sequence)"
 )
 ASSUMPTIONS = [
@@ -53,7 +53,7 @@ GROUPSETS = [
 H_NAMES = ("default", "nan", "inf", "none", "asym")
 SUBJ = ["s1", "a b", "x\ty", "-", "", "1e5", "nan", "ü", 'q"r', "subject_name"]
 SEQ3 = [["s1", "s2"], ["a b", "x\ty"], ["-", "", "1e5"]]
-INPUT_CYCLE = ("tp", "empty_pred", "none", "miss", "partial")
+INPUT_CYCLE = ("tp", "empty_pred", "tiny_rvd", "none", "miss", "partial")
 
 
 def handler_cfg(name):
